@@ -117,7 +117,7 @@ Print Assumptions C08_agg_pipeline_refines_eval.
 (* the whole answer of an ascending query of the core language (plain selections with limit/offset, aggregates per
    tag group and bucket with fill): for EVERY execution plan - partition of each group's series over readers,
    chunking before the aggregation, before the fill and before the limit operator - the pipeline's answer is the
-   reference answer. Descending queries: L1 only (C08_desc_is_rev_asc); the descending pipeline is not modelled. *)
+   reference answer. (Descending queries: C08_pipeline_refines_eval_current / _both_orders below.) *)
 Theorem C08_pipeline_refines_eval : forall db q pl,
   q_desc q = false -> (0 <= q_interval q)%Z ->
   (forall k, In k (keys_of q db) -> Permutation (concat (pl_parts pl k)) (members q db k)) ->
@@ -136,6 +136,51 @@ Proof.
   rewrite (l2_eval_asc_lemma false db q pl1 Hd Hi H1), (l2_eval_asc_lemma false db q pl2 Hd Hi H2). reflexivity.
 Qed.
 Print Assumptions C08_pipeline_plan_invariant.
+
+(* ---- descending queries. The pipeline scans time downwards (the same stages over the mirrored key) and the fill operator
+   runs in iteration order from the highest bucket to the lowest, as today's code does. *)
+
+(* one tag group of a descending aggregate query: pipeline = today's reference agg_group true (fill(previous) in
+   iteration order), for every partition and every two chunkings *)
+Theorem C08_agg_pipeline_desc_refines_current : forall q aggs ms (parts : list (list series)) sizes sizes2,
+  q_desc q = true -> (0 <= q_interval q)%Z -> Permutation (concat parts) ms ->
+  l2_agg_group_desc q aggs parts sizes sizes2 = agg_group true q aggs ms.
+Proof. exact l2_agg_group_desc_lemma. Qed.
+Print Assumptions C08_agg_pipeline_desc_refines_current.
+
+(* the whole answer, ascending or descending: the pipeline computes eval_query_current for EVERY plan ... *)
+Theorem C08_pipeline_refines_eval_current : forall db q pl,
+  (0 <= q_interval q)%Z ->
+  (forall k, In k (keys_of q db) -> Permutation (concat (pl_parts pl k)) (members q db k)) ->
+  l2_eval db q pl = eval_query_current db q.
+Proof. exact l2_eval_lemma. Qed.
+Print Assumptions C08_pipeline_refines_eval_current.
+
+(* ... which is the documented semantics eval_query unless the query is descending AND uses fill(previous)
+   (finding C08-fill-previous-desc, refuted in Refuted.v) *)
+Theorem C08_pipeline_refines_eval_both_orders : forall db q pl,
+  (0 <= q_interval q)%Z -> (q_desc q && is_prev (q_fill q))%bool = false ->
+  (forall k, In k (keys_of q db) -> Permutation (concat (pl_parts pl k)) (members q db k)) ->
+  l2_eval db q pl = eval_query db q.
+Proof.
+  intros db q pl Hi Hp HP. rewrite (l2_eval_lemma db q pl Hi HP). exact (eval_gen_cur_irrelevant db q Hp).
+Qed.
+Print Assumptions C08_pipeline_refines_eval_both_orders.
+
+(* hence, at L2: the descending pipeline answer is the ascending pipeline answer reversed (no limit/offset, no
+   descending fill(previous)), whatever the two plans *)
+Theorem C08_pipeline_desc_is_rev_asc : forall db q pl1 pl2,
+  (0 <= q_interval q)%Z -> has_limit q = false -> is_prev (q_fill q) = false ->
+  (forall k, In k (keys_of q db) -> Permutation (concat (pl_parts pl1 k)) (members q db k)) ->
+  (forall k, In k (keys_of q db) -> Permutation (concat (pl_parts pl2 k)) (members q db k)) ->
+  l2_eval db (set_desc q true) pl1 = rev_answer (l2_eval db (set_desc q false) pl2).
+Proof.
+  intros db q pl1 pl2 Hi HL Hp H1 H2.
+  rewrite (C08_pipeline_refines_eval_both_orders db (set_desc q true) pl1 Hi); [| cbn [set_desc q_desc q_fill andb]; exact Hp | exact H1].
+  rewrite (C08_pipeline_refines_eval_both_orders db (set_desc q false) pl2 Hi); [| reflexivity | exact H2].
+  exact (desc_is_rev_asc_lemma db q HL).
+Qed.
+Print Assumptions C08_pipeline_desc_is_rev_asc.
 
 (* the two facts the first version of this file proved in isolation (kept: the limit stage is used above) *)
 Theorem C08_pipeline_refines_eval_partial :
@@ -192,3 +237,16 @@ Proof.
   intros k Hk. vm_compute in Hk. destruct Hk as [<-|[]]. vm_compute.
   apply Permutation_sym. apply (Permutation_cons_app [_; _] []). cbn [app]. apply perm_swap.
 Qed.
+
+(* non-vacuity of the descending pipeline theorems: the same data, descending, fill(0): *)
+Example C08_pipeline_desc_example :
+  let s1 : series := ([1%Z], [(1, [Some 12]); (2, [Some 20]); (7, [Some 32])]%Z) in
+  let s2 : series := ([2%Z], [(2, [Some 72]); (6, [Some 8])]%Z) in
+  let s3 : series := ([1%Z], [(3, [None]); (12, [Some 5])]%Z) in
+  let db : database := [s1; s2; s3] in
+  let q := mkQ (SelAgg [(FSum, 0%nat, 8%Z); (FLast, 0%nat, 8%Z)]) (Some 0%Z) (Some 24%Z) PTrue [] 5%Z (FillNum 0) 0%Z 0%Z true in
+  let pl := mkPlan (fun _ => [[s3]; [s2; s1]]) (fun _ => [0; 1; 0]%nat) (fun _ => [1]%nat) (fun _ => []) in
+  l2_eval db q pl = eval_query db q /\
+  eval_query db q = [([], [(20, [CVal 0; CVal 0]); (15, [CVal 0; CVal 0]); (10, [CVal 5; CVal 5]);
+                           (5, [CVal 40; CVal 32]); (0, [CVal 104; CVal 72])]%Z)].
+Proof. cbv zeta. split; vm_compute; reflexivity. Qed.
